@@ -316,7 +316,8 @@ func Run(peer *Peer, torEvent chan<- TorEvent, torDone <-chan struct{},
 				}
 			} else {
 				bitmap := peer.myBitmap.Copy()
-				bitmap.Extend(num)
+				// Extend(i) makes room for bit i
+				bitmap.Extend(num - 1)
 				err := write(peer, protocol.Bitfield{bitmap})
 				if err != nil {
 					return err
